@@ -86,6 +86,14 @@ Definition flrint (t : sty) (a : Z) : Z :=
   | _ => a
   end.
 Definition fofZ (t : sty) (z : Z) : Z := conv I64 t z.
+Definition finite (t : sty) (a : Z) : bool :=
+  match t with
+  | F32 => is_finite 24 128 (of32 a)
+  | F64 => is_finite 53 1024 (of64 a)
+  | _ => true
+  end.
+Definition toZ (t : sty) (a : Z) : Z :=
+  match t with F32 => trunc32 (of32 a) | F64 => trunc64 (of64 a) | _ => a end.
 
 Definition flocq_ops : sops :=
   {| s_lt := lt;
@@ -95,7 +103,9 @@ Definition flocq_ops : sops :=
      f_mul := fbin (b32_mult mode_NE) (b64_mult mode_NE) Z.mul;
      f_trunc := ftrunc;
      f_lrint := flrint;
-     f_of_Z := fofZ |}.
+     f_of_Z := fofZ;
+     s_finite := finite;
+     f_toZ := toZ |}.
 
 (* sanity: 1.5f + 2.25f = 3.75f ; lrint(2.5) = 2 ; (double)0.1f ; (float)0.1 ; trunc(-1.5) = -1.0 *)
 Example ex_add : f_add flocq_ops F32 1069547520 1074790400 = 1081081856. Proof. vm_compute. reflexivity. Qed.
